@@ -1,7 +1,7 @@
 (* C01 — property theorems only.  [eval m n st sc e]: evaluate e with fuel n in state st (frames, functions, trace)
    and scope sc, in mode m: Ref = S, the reference evaluator; Slip = M, the model of the Go code; Chk = the guard run.
    Theorems quantified over m hold for the reference evaluator AND for the model of the Go code. *)
-From C01 Require Import Model Spec Sim Ext Laws Proofs.
+From C01 Require Import Model Spec Sim Ext Laws Wf Proofs.
 
 (* (1) Fuel.  A result obtained with some fuel (value or error other than "out of fuel") is the result with any
    larger fuel: evaluation is a function of the program, the fuel only bounds the search for it. *)
@@ -136,6 +136,25 @@ Theorem C01_closure_sees_update : forall ev st st1 sc sc2 x v l c,
   evalF Ref ev (cell_set st1 l v) sc (EVar x) = (Ok v, cell_set st1 l v).
 Proof. exact closure_sees_update. Qed.
 Print Assumptions C01_closure_sees_update.
+
+(* (e) the well-formedness assumed in (b) and (d) is an invariant of evaluation: whatever program is run from the
+   initial state, in whatever mode and with whatever fuel, every closure in the final state - in a cell, in the
+   function table, inside a list, in the result - has a well formed scope; so every closure a program produces
+   keeps its bindings for ever. *)
+Theorem C01_reachable_state_well_formed : forall m n p,
+  wf_state (snd (run m n p)) /\ forall v, fst (run m n p) = Ok v -> wf_val (snd (run m n p)) v.
+Proof. exact reachable_state_wf. Qed.
+Print Assumptions C01_reachable_state_well_formed.
+Theorem C01_evaluation_keeps_well_formed : forall m n st sc e, wf_state st -> wf_scope st sc ->
+  ext st (snd (eval m n st sc e)) /\ wf_state (snd (eval m n st sc e)) /\
+  forall v, fst (eval m n st sc e) = Ok v -> wf_val (snd (eval m n st sc e)) v.
+Proof. exact eval_wf. Qed.
+Print Assumptions C01_evaluation_keeps_well_formed.
+Theorem C01_closure_binding_stable_reachable : forall n p v sc n' st1 sc1 e x,
+  fst (runS n p) = Ok v -> In sc (scopes_of v) -> ext (snd (runS n p)) st1 ->
+  locate true (frames (snd (evalS n' st1 sc1 e))) sc x = locate true (frames (snd (runS n p))) sc x.
+Proof. exact closure_binding_stable_reachable. Qed.
+Print Assumptions C01_closure_binding_stable_reachable.
 
 (* (7) Quoting a datum of any kind yields exactly that datum, and nothing else happens. *)
 Theorem C01_quote_identity : forall m n st sc d, eval m (S n) st sc (EQuote d) = (Ok (inj d), st).
